@@ -4,6 +4,7 @@
 import YV.Model.XTables
 import YV.Gen.XPath
 import YV.Gen.Status
+import YV.Proofs.XReject
 namespace YV.C04
 open YV YV.X YV.XL YV.XP
 
@@ -34,5 +35,27 @@ theorem C04_leafref_rules : Gen.leafrefRules = XT.leafrefRules := by decide +ker
 theorem C04_yacc_no_conflicts :
     Gen.yaccConflicts = [("xpath.y", "0/0"), ("leafref.y", "0/0"), ("path_eval.y", "0/0")] := by decide
 theorem C04_yacc_fresh : Gen.yaccFresh = [("xpath.go", "fresh"), ("path_eval.go", "fresh")] := by decide
+
+/-- **C04 (unsupported constructs are rejected).** If a machine is built for a must / when (or path-eval)
+    expression, then no token the lexer delivered before the end of the text is an axis name, an '@', a '//' or a
+    node-type test: every expression using one of them is refused with an error (invariant over the eleven
+    mutually recursive parser functions: an action sets parseErr as soon as such a token is read, and the result
+    is a machine only if parseErr is empty). -/
+theorem C04_unsupported_rejected (strict fixed : Bool) (g : Grammar) (hg : g ≠ .leafref) (pm : PfxMap) (bs : List Nat)
+    (prog : List PI) (h : build strict fixed g pm bs = .machine prog) :
+    ∃ pre rest, (lexAll strict g pm bs).1 = pre ++ rest ∧ (∀ t ∈ pre, bad t.tok = false) ∧
+      (rest.head?.map (·.tok)).getD .eof = .eof :=
+  build_rejects strict fixed g hg pm bs prog h
+
+/-- what the lexer makes of the characters in question ('@' and '//'; axis and node-type names are recognised by
+    `lexNameCommon` before '::' / '(') -/
+theorem C04_at_token (strict : Bool) (pm : PfxMap) (s : LexSt) : (lexTok strict .expr pm (chr '@') s).1 = .ch (chr '@') := by
+  simp [lexTok, chr, EOF, ERR, isDigitR]
+theorem C04_dblslash_token (strict : Bool) (pm : PfxMap) (s : LexSt) (h : (next s).1 = chr '/') :
+    (lexTok strict .expr pm (chr '/') s).1 = .dblslash := by
+  simp [lexTok, chr, EOF, ERR, isDigitR] at h ⊢
+  simp [h]
+example : bad (.ch (chr '@')) = true ∧ bad .dblslash = true ∧ bad (.axisname []) = true ∧ bad (.nodetype []) = true := by
+  simp [bad]
 
 end YV.C04
